@@ -6,6 +6,7 @@ import Mashu.Wire
 import Mashu.Tz
 import Mashu.ToDict
 import Mashu.Args
+import Mashu.Resolve
 import Mashu.Generated
 open Lean
 
@@ -110,6 +111,30 @@ def dispatchArgs (j : Json) : Except String Json := do
     | none => Json.null
   pure (Json.mkObj [("pos", Json.arr (a.1.map Json.str).toArray), ("kw", Json.arr (a.2.map Json.str).toArray), ("bind", bj)])
 
+/-- C10: which customization level applies -/
+def dispatchResolve (j : Json) : Except String Json := do
+  let toM (x : Json) : Option Resolve.M := match x with
+    | .str "pass" => some .pass
+    | .str t => some (.fn t)
+    | _ => none
+  let toReg (x : Json) : Option Resolve.Reg := match x with
+    | .null => none
+    | o => some { ser := toM (o.getObjValD "ser"), de := toM (o.getObjValD "de") }
+  let keyedJ := j.getObjValD "keyed"
+  let L : Resolve.Levels :=
+    { fieldSer := toM (j.getObjValD "field_ser"), fieldDe := toM (j.getObjValD "field_de"),
+      fieldStrategy := toReg (j.getObjValD "field_strategy"),
+      keyed := fun k s => toReg ((keyedJ.getObjValD k).getObjValD s) }
+  let ofM (m : Option Resolve.M) : Json := match m with
+    | some (.fn t) => Json.str t
+    | some .pass => Json.str "pass"
+    | none => Json.null
+  let ko := Mashu.Generated.typeKeyOrderPack
+  let ku := Mashu.Generated.typeKeyOrderUnpack
+  let so := Mashu.Generated.strategySourceOrder
+  pure (Json.mkObj [("ser", ofM (Resolve.resolveImpl ko so .ser L)), ("de", ofM (Resolve.resolveImpl ku so .de L)),
+                    ("spec_ser", ofM (Resolve.resolveSpec .ser L)), ("spec_de", ofM (Resolve.resolveSpec .de L))])
+
 def dispatch (j : Json) : Except String Json := do
   let op ← str (j.getObjValD "op")
   match op with
@@ -121,6 +146,7 @@ def dispatch (j : Json) : Except String Json := do
   | "pack" | "unpack" | "roundtrip" | "conf" => dispatchCore op j
   | "todict" => dispatchToDict j
   | "args" => dispatchArgs j
+  | "resolve" => dispatchResolve j
   | _ => throw s!"unknown op {op}"
 
 end Mashu
